@@ -110,6 +110,18 @@ def basics_part(ctx, rng):
         c = proj.state_from_json(s1)
         c.grid.swap(Position(*pp), Position(*qq))
         recs.append({'kind': 'grid_swap', 'g': s1['grid'], 'p': pp, 'q': qq, 'after': proj.grid_to_json(c.grid)})
+        from gym_gridverse.geometry import Area
+        # subgrid: the whole grid exactly, a superset with unequal overhangs, a window, a partly / fully outside area
+        y0, x0 = rng.randint(-3, h), rng.randint(-3, w)
+        kind_ = rng.randrange(4)
+        if kind_ == 0:
+            ar = [[0, h - 1], [0, w - 1]]
+        elif kind_ == 1:
+            ar = [[-rng.randint(0, 3), h - 1 + rng.randint(0, 3)], [-rng.randint(0, 3), w - 1 + rng.randint(0, 3)]]
+        else:
+            ar = [[y0, y0 + rng.randint(0, h + 2)], [x0, x0 + rng.randint(0, w + 2)]]
+        sub = a.grid.subgrid(Area((ar[0][0], ar[0][1]), (ar[1][0], ar[1][1])))
+        recs.append({'kind': 'grid_subgrid', 'g': s1['grid'], 'area': ar, 'res': proj.grid_to_json(sub)})
     for _ in range(40 if ctx.quick else 400):
         types = rng.sample(reps.STATE_TYPES, rng.randint(1, len(reps.STATE_TYPES)))
         colors = rng.sample(reps.REAL_COLORS, rng.randint(0, 4))
